@@ -13,32 +13,75 @@
    Only statements here; each is closed by lemmas of C18_Proofs.v and followed
    by Print Assumptions.  Quantification is over ALL n, ALL numbers of calls,
    ALL callback result streams / success patterns and ALL clocks satisfying the
-   stated hypotheses. *)
+   stated hypotheses.
+
+   The counter *n has a signed integer type with smallest value lo (int:
+   lo = min64; int8: lo = min8 ...): the After/Before theorems are stated for
+   every such type (forall lo < 0) and EVERY value n of it (is_int lo n — not a
+   restriction: these are the values the type has).  The code decrements the
+   counter on every call but not below lo (repair ddacf7d), so After(n <= 0)
+   runs on every call forever and Before(n <= 0) never runs.  The code as
+   shipped wrapped around at lo: the two theorems named _unrepaired_refuted
+   are about THAT code only (after_calls_orig / before_calls_orig). *)
 
 From Gogu Require Import Base C18_Model C18_Proofs.
 Local Open Scope Z_scope.
 
 (* ------------------------------------------------------------------ After *)
 
-(* m calls of After on a counter starting at n: call i (0-based) makes one
-   invocation iff n <= i, none otherwise; the counter ends at n - m *)
-Theorem C18_after_spec : forall n m,
-  after_calls m n = (after_spec_runs n m, n - Z.of_nat m).
+(* m calls of After on a counter of any signed type starting at any value n of
+   it: call i (0-based) makes one invocation iff n <= i, none otherwise; the
+   counter ends at n - m, or at the smallest value of its type if that is larger *)
+Theorem C18_after_spec : forall lo n m, lo < 0 -> is_int lo n ->
+  after_calls lo m n = (after_spec_runs n m, Z.max lo (n - Z.of_nat m)).
 Proof.
-  intros n m. rewrite <- after_calls_runs, <- after_calls_final.
-  destruct (after_calls m n); reflexivity.
+  intros lo n m Hlo (H1 & H2).
+  rewrite <- (Z.max_r lo n) at 1 by exact H1. rewrite after_calls_sim by assumption.
+  rewrite after_calls_runs, after_calls_final. reflexivity.
 Qed.
 Print Assumptions C18_after_spec.
 
-Theorem C18_after_which_calls_run : forall n m i, (i < m)%nat ->
-  nth i (fst (after_calls m n)) 0%nat = if n <=? Z.of_nat i then 1%nat else 0%nat.
-Proof. intros n m i Hi. rewrite after_calls_runs. now apply after_spec_runs_nth. Qed.
+Theorem C18_after_which_calls_run : forall lo n m i, lo < 0 -> is_int lo n -> (i < m)%nat ->
+  nth i (fst (after_calls lo m n)) 0%nat = if n <=? Z.of_nat i then 1%nat else 0%nat.
+Proof.
+  intros lo n m i Hlo Hn Hi. rewrite C18_after_spec by assumption. cbn [fst].
+  now apply after_spec_runs_nth.
+Qed.
 Print Assumptions C18_after_which_calls_run.
 
-Theorem C18_after_total_runs : forall n m,
-  Z.of_nat (list_sum (fst (after_calls m n))) = Z.max 0 (Z.of_nat m - Z.max 0 n).
-Proof. intros n m. rewrite after_calls_runs. apply after_spec_runs_total. Qed.
+Theorem C18_after_total_runs : forall lo n m, lo < 0 -> is_int lo n ->
+  Z.of_nat (list_sum (fst (after_calls lo m n))) = Z.max 0 (Z.of_nat m - Z.max 0 n).
+Proof.
+  intros lo n m Hlo Hn. rewrite C18_after_spec by assumption. cbn [fst]. apply after_spec_runs_total.
+Qed.
 Print Assumptions C18_after_total_runs.
+
+(* non-vacuity at both ends of the int range and across the threshold; and an
+   int8 counter: After(&n), n = 1, called 600 times runs 599 times and the
+   counter rests at -128 *)
+Example C18_after_spec_nonvacuous :
+  (min64 < 0 /\ is_int min64 min64 /\ after_calls min64 3 min64 = ([1%nat; 1%nat; 1%nat], min64)) /\
+  (is_int min64 max64 /\ fst (after_calls min64 3 max64) = [0%nat; 0%nat; 0%nat]) /\
+  fst (after_calls min64 5 2) = [0%nat; 0%nat; 1%nat; 1%nat; 1%nat] /\
+  (min8 < 0 /\ is_int min8 1 /\ list_sum (fst (after_calls min8 600 1)) = 599%nat /\
+   snd (after_calls min8 600 1) = min8).
+Proof. vm_compute. repeat split; congruence. Qed.
+
+(* ONLY about the code as shipped before repair ddacf7d (counter decremented
+   with wrap-around): After(&n) with n = math.MinInt ran the callback on the
+   first call, the counter became math.MaxInt, and the later calls were
+   suppressed; with an int8 counter After(&n), n = 1, called 600 times ran the
+   callback 345 times instead of 599 *)
+Theorem C18_after_minint_unrepaired_refuted :
+  (exists n m, is_int min64 n /\ fst (after_calls_orig min64 m n) <> after_spec_runs n m) /\
+  list_sum (fst (after_calls_orig min8 600 1)) = 345%nat.
+Proof.
+  split.
+  - exists min64, 3%nat. split; [vm_compute; split; congruence|].
+    rewrite after_orig_minint_wraps. vm_compute. congruence.
+  - apply after_orig_int8_rearms.
+Qed.
+Print Assumptions C18_after_minint_unrepaired_refuted.
 
 (* ----------------------------------------------------------------- Before *)
 
@@ -49,16 +92,20 @@ Print Assumptions C18_after_total_runs.
    i < n; every later call makes no invocation and returns the result of
    invocation n-1; for n <= 0 nothing runs and the zero value is returned.
    Total invocations: min m (max 0 n). *)
-Theorem C18_before_spec : forall (clk : nat -> Z) (fn : nat -> Z) def n m,
+Theorem C18_before_spec : forall lo (clk : nat -> Z) (fn : nat -> Z) def n m,
+  lo < 0 -> is_int lo n ->
   (def <= 0 \/ forall i, clk i <= clk 0%nat + def) ->
-  let '(os, nf, wf) := before_calls clk fn m n (world0 def) in
-  os = before_spec fn n m /\ nf = n - Z.of_nat m /\
+  let '(os, nf, wf) := before_calls lo clk fn m n (world0 def) in
+  os = before_spec fn n m /\ nf = Z.max lo (n - Z.of_nat m) /\
   Z.of_nat (w_k wf) = Z.min (Z.of_nat m) (Z.max 0 n).
 Proof.
-  intros clk fn def n m Hlive.
+  intros lo clk fn def n m Hlo (H1 & H2) Hlive.
+  replace (before_calls lo clk fn m n (world0 def)) with (before_calls lo clk fn m (Z.max lo n) (world0 def))
+    by (rewrite Z.max_r by exact H1; reflexivity).
+  rewrite before_calls_sim by assumption.
   pose proof (before_calls_fresh clk fn m n (world0 def) fn eq_refl Hlive (fun j => eq_refl)) as H.
-  destruct (before_calls clk fn m n (world0 def)) as [[os nf] wf].
-  destruct H as (H1 & H2 & H3). cbn [world0 w_k] in H3. repeat split; auto; lia.
+  destruct (before_calls_z clk fn m n (world0 def)) as [[os nf] wf].
+  destruct H as (E1 & E2 & E3). cbn [world0 w_k] in E3. subst nf. repeat split; auto; lia.
 Qed.
 Print Assumptions C18_before_spec.
 
@@ -77,25 +124,159 @@ Print Assumptions C18_before_spec_reading.
 (* non-vacuity: a clock that does advance, with a one-hour default expiry *)
 Example C18_before_spec_nonvacuous :
   let clk := fun i : nat => 1000 * Z.of_nat (Nat.min i 50) in
+  (min64 < 0 /\ is_int min64 2) /\
   (3600000000000 <= 0 \/ forall i, clk i <= clk 0%nat + 3600000000000) /\
-  fst (fst (before_calls clk (fun k => 10 + Z.of_nat k) 5 2 (world0 3600000000000)))
+  fst (fst (before_calls min64 clk (fun k => 10 + Z.of_nat k) 5 2 (world0 3600000000000)))
   = [(1%nat, 10); (1%nat, 11); (0%nat, 11); (0%nat, 11); (0%nat, 11)].
 Proof.
-  intros clk. split; [right; intros i; subst clk; cbv beta; lia | vm_compute; reflexivity].
+  intros clk. split; [vm_compute; repeat split; congruence|].
+  split; [right; intros i; subst clk; cbv beta; lia | vm_compute; reflexivity].
 Qed.
 
-(* one call of Before in ANY state of counter, cache and clock: it decrements;
-   it invokes the callback exactly once iff the counter was >= 1 and not at all
-   otherwise; while the counter is above 1 it returns the fresh result and does
-   not touch the cache; once the counter is spent it does not touch the cache *)
-Theorem C18_before_call_any_state : forall (clk fn : nat -> Z) n w,
-  let '((ran, ret), n', w') := before_call clk fn n w in
-  n' = n - 1 /\
+(* one call of Before in ANY state of counter, cache and clock: the counter is
+   decremented (but not below the smallest value of its type); the callback is
+   invoked exactly once iff the counter was >= 1 and not at all otherwise; while
+   the counter is above 1 the fresh result is returned and the cache is not
+   touched; once the counter is spent the cache is not touched *)
+Theorem C18_before_call_any_state : forall lo (clk fn : nat -> Z) n w,
+  lo < 0 -> is_int lo n ->
+  let '((ran, ret), n', w') := before_call lo clk fn n w in
+  n' = Z.max lo (n - 1) /\
   (1 <= n -> ran = 1%nat /\ w_k w' = S (w_k w)) /\
   (n <= 0 -> ran = 0%nat /\ w_k w' = w_k w /\ w_cache w' = w_cache w) /\
   (1 < n -> ret = fn (w_k w) /\ w_cache w' = w_cache w).
-Proof. exact before_call_any. Qed.
+Proof.
+  intros lo clk fn n w Hlo (H1 & H2).
+  replace (before_call lo clk fn n w) with (before_call lo clk fn (Z.max lo n) w)
+    by (rewrite Z.max_r by exact H1; reflexivity).
+  rewrite before_call_sim by assumption.
+  pose proof (before_call_any clk fn n w) as H.
+  destruct (before_call_z clk fn n w) as [[[ran ret] n'] w'].
+  destruct H as (E & R1 & R2 & R3). subst n'. auto.
+Qed.
 Print Assumptions C18_before_call_any_state.
+
+(* "never again", at full strength: m calls of Before(&n, c, fn) starting in ANY
+   world — any cache content (empty, live, expired, holding a foreign value),
+   any default expiry — under ANY clock (not even monotone), on a counter of
+   any signed type: call i makes exactly one invocation iff i < n and none
+   otherwise.  No hypothesis about the cache is needed: losing the entry
+   (flush, expiry) never makes Before run again, and for n <= 0 it never runs
+   at all, however many calls are made. *)
+Theorem C18_before_runs_any_cache : forall lo (clk fn : nat -> Z) m n w,
+  lo < 0 -> is_int lo n ->
+  let '(os, nf, wf) := before_calls lo clk fn m n w in
+  map fst os = map (fun i => if Z.of_nat i <? n then 1%nat else 0%nat) (seq 0 m) /\
+  nf = Z.max lo (n - Z.of_nat m) /\
+  Z.of_nat (w_k wf) = Z.of_nat (w_k w) + Z.min (Z.of_nat m) (Z.max 0 n).
+Proof.
+  intros lo clk fn m n w Hlo (H1 & H2).
+  replace (before_calls lo clk fn m n w) with (before_calls lo clk fn m (Z.max lo n) w)
+    by (rewrite Z.max_r by exact H1; reflexivity).
+  rewrite before_calls_sim by assumption.
+  pose proof (before_calls_runs_any clk fn m n w) as H.
+  destruct (before_calls_z clk fn m n w) as [[os nf] wf].
+  destruct H as (E1 & E2 & E3). subst nf. auto.
+Qed.
+Print Assumptions C18_before_runs_any_cache.
+
+(* non-vacuity with a hostile cache: default expiry 5, a clock that jumps past
+   every deadline; Before(2) called 5 times runs exactly twice although the
+   stored entry is already dead at the very next read (later calls return the
+   zero value of a nil item); and Before(&n) with n = math.MinInt, resp. with an
+   int8 counter at -128, called 3 times never runs and leaves the counter there *)
+Example C18_before_runs_any_cache_example :
+  let clk := fun i : nat => 100 * Z.of_nat i in
+  let fn := fun k : nat => 10 + Z.of_nat k in
+  fst (fst (before_calls min64 clk fn 5 2 (world0 5)))
+  = [(1%nat, 10); (1%nat, 0); (0%nat, 0); (0%nat, 0); (0%nat, 0)] /\
+  fst (before_calls min64 clk fn 3 min64 (world0 5)) = ([(0%nat, 0); (0%nat, 0); (0%nat, 0)], min64) /\
+  fst (before_calls min8 clk fn 3 min8 (world0 5)) = ([(0%nat, 0); (0%nat, 0); (0%nat, 0)], min8).
+Proof. vm_compute. repeat split; reflexivity. Qed.
+
+(* ONLY about the code as shipped before repair ddacf7d: Before(&n) with
+   n = math.MinInt, for which "n <= 0: never" is promised, wrapped to
+   math.MaxInt on its first decrement and ran the callback on every call *)
+Theorem C18_before_minint_unrepaired_refuted :
+  exists n m, is_int min64 n /\ n <= 0 /\
+    map fst (fst (fst (before_calls_orig min64 (fun _ => 0) (fun k => 10 + Z.of_nat k) m n (world0 0))))
+    <> map (fun i => if Z.of_nat i <? n then 1%nat else 0%nat) (seq 0 m).
+Proof.
+  exists min64, 3%nat. split; [vm_compute; split; congruence|]. split; [vm_compute; congruence|].
+  rewrite before_orig_minint_wraps. vm_compute. congruence.
+Qed.
+Print Assumptions C18_before_minint_unrepaired_refuted.
+
+(* a spent Before (counter <= 0) in ANY state: no invocation, and the value
+   returned is what Get("func") finds at that moment — the memoised value while
+   the entry lives, the zero value of T once it is gone (memo.Val() on nil) *)
+Theorem C18_before_spent_returns_memo : forall lo (clk fn : nat -> Z) n w,
+  lo < 0 -> is_int lo n -> n <= 0 ->
+  fst (fst (before_call lo clk fn n w)) = (0%nat, val_of (fst (c_get clk (w_cache w) (w_tick w)))).
+Proof.
+  intros lo clk fn n w Hlo (H1 & H2) Hn.
+  replace (before_call lo clk fn n w) with (before_call lo clk fn (Z.max lo n) w)
+    by (rewrite Z.max_r by exact H1; reflexivity).
+  rewrite before_call_sim by assumption.
+  rewrite before_call_spent by exact Hn. reflexivity.
+Qed.
+Print Assumptions C18_before_spent_returns_memo.
+
+(* the same inside ANY history on a shared cache: whatever happened before —
+   calls through another counter, Once, Delete("func"), Flush(), time passing
+   (entries expiring) — the next Before(&A) invokes the callback iff fewer than
+   n = (initial *A) calls of Before(&A) have been made so far *)
+Theorem C18_before_never_again_any_history : forall lo (clk fn : nat -> Z) ops s,
+  lo < 0 -> is_int lo (m_a s) -> is_int lo (m_b s) ->
+  let s1 := snd (mrun lo clk fn ops s) in
+  let calls := Z.of_nat (length (filter is_before_a ops)) in
+  m_a s1 = Z.max lo (m_a s - calls) /\
+  fst (fst (mstep lo clk fn s1 MBeforeA)) = (if calls <? m_a s then 1%nat else 0%nat).
+Proof.
+  intros lo clk fn ops s Hlo (A1 & A2) (B1 & B2). cbv zeta.
+  replace (mrun lo clk fn ops s) with (mrun lo clk fn ops (clampS lo s))
+    by (rewrite clampS_id by assumption; reflexivity).
+  rewrite mrun_sim by assumption. cbn [snd].
+  destruct (mrun_counters clk fn ops s) as (Ha & Hb).
+  pose proof (filter_len_le _ is_before_a ops) as La.
+  pose proof (filter_len_le _ is_before_b ops) as Lb.
+  split; [cbn [clampS m_a]; rewrite Ha; reflexivity|].
+  rewrite mstep_sim by lia. cbn [fst]. rewrite mstep_before_a_ran, Ha.
+  destruct (1 <=? m_a s - Z.of_nat (length (filter is_before_a ops))) eqn:E,
+           (Z.of_nat (length (filter is_before_a ops)) <? m_a s) eqn:F;
+    try reflexivity;
+    repeat match goal with
+    | H : (_ <? _) = true |- _ => apply Z.ltb_lt in H
+    | H : (_ <? _) = false |- _ => apply Z.ltb_ge in H
+    | H : (_ <=? _) = true |- _ => apply Z.leb_le in H
+    | H : (_ <=? _) = false |- _ => apply Z.leb_gt in H
+    end; lia.
+Qed.
+Print Assumptions C18_before_never_again_any_history.
+
+(* n <= 0: no call ever runs the callback, in any history, however long *)
+Theorem C18_before_nonpositive_never_runs : forall lo (clk fn : nat -> Z) ops s,
+  lo < 0 -> is_int lo (m_a s) -> is_int lo (m_b s) -> m_a s <= 0 ->
+  fst (fst (mstep lo clk fn (snd (mrun lo clk fn ops s)) MBeforeA)) = 0%nat.
+Proof.
+  intros lo clk fn ops s Hlo HA HB Hn.
+  destruct (C18_before_never_again_any_history lo clk fn ops s Hlo HA HB) as (_ & Hr).
+  rewrite Hr.
+  replace (Z.of_nat (length (filter is_before_a ops)) <? m_a s) with false
+    by (symmetry; apply Z.ltb_ge; lia).
+  reflexivity.
+Qed.
+Print Assumptions C18_before_nonpositive_never_runs.
+
+(* non-vacuity: A = 1 spent, then the entry is flushed, then time passes: the
+   later Before(&A) calls do not run (and return the zero value), while Once on
+   the same cache does run again *)
+Example C18_before_never_again_example :
+  fst (mrun min64 (fun _ => 0) (fun k => 10 + Z.of_nat k)
+            [MBeforeA; MBeforeA; MFlush; MBeforeA; MOnce; MSleep 6; MBeforeA; MOnce]
+            (mkM 1 0 0 (world0 5)))
+  = [(1%nat, 10); (0%nat, 10); (0%nat, 0); (0%nat, 0); (1%nat, 11); (0%nat, 0); (0%nat, 0); (1%nat, 12)].
+Proof. vm_compute. reflexivity. Qed.
 
 (* ------------------------------------------------------------------- Once *)
 
@@ -114,6 +295,16 @@ Proof.
   - rewrite H2. destruct m; reflexivity.
 Qed.
 Print Assumptions C18_once_spec.
+
+(* non-vacuity: an advancing clock within a one-hour expiry *)
+Example C18_once_spec_nonvacuous :
+  let clk := fun i : nat => 1000 * Z.of_nat (Nat.min i 50) in
+  (3600000000000 <= 0 \/ forall i, clk i <= clk 0%nat + 3600000000000) /\
+  fst (once_calls clk (fun k => 10 + Z.of_nat k) 4 (world0 3600000000000))
+  = [(1%nat, 10); (0%nat, 10); (0%nat, 10); (0%nat, 10)].
+Proof.
+  intros clk. split; [right; intros i; subst clk; cbv beta; lia | vm_compute; reflexivity].
+Qed.
 
 Theorem C18_once_spec_reading : forall fn m i, (i < m)%nat ->
   nth i (once_spec fn m) (0%nat, 0) = ((if Nat.eqb i 0 then 1%nat else 0%nat), fn 0%nat).
@@ -139,6 +330,28 @@ Theorem C18_once_call_any_state : forall (clk fn : nat -> Z) w,
   end.
 Proof. exact once_call_any. Qed.
 Print Assumptions C18_once_call_any_state.
+
+
+(* "for as long as its cache entry lives", as a history: from ANY world whose
+   entry v is alive at every read (whoever stored it), any number of Once calls
+   makes no invocation, returns v every time and leaves the cache alone *)
+Theorem C18_once_served_while_entry_lives : forall (clk fn : nat -> Z) m w v,
+  (forall t, fst (c_get clk (w_cache w) t) = Some v) ->
+  let '(os, wf) := once_calls clk fn m w in
+  os = repeat (0%nat, v) m /\ w_k wf = w_k w /\ w_cache wf = w_cache w.
+Proof. exact once_calls_hit. Qed.
+Print Assumptions C18_once_served_while_entry_lives.
+
+Example C18_once_served_nonvacuous :
+  let w := mkWorld (mkCache 5 (Some (7, 1000))) 3 2 in
+  let clk := fun i : nat => Z.of_nat (Nat.min i 900) in
+  (forall t, fst (c_get clk (w_cache w) t) = Some 7) /\
+  fst (once_calls clk (fun k => 10 + Z.of_nat k) 3 w) = [(0%nat, 7); (0%nat, 7); (0%nat, 7)].
+Proof.
+  cbv zeta. split; [|vm_compute; reflexivity].
+  intros t. unfold c_get. cbn [w_cache c_slot]. cbn [Z.ltb Z.compare].
+  replace (1000 <? Z.of_nat (Nat.min t 900)) with false by (symmetry; apply Z.ltb_ge; lia). reflexivity.
+Qed.
 
 (* non-vacuity of both branches, and re-computation after expiry: default
    expiry 5, clock 0,0,0,0,100,...: first call runs, second is served, third
@@ -169,6 +382,90 @@ Proof.
 Qed.
 Print Assumptions C18_once_original_refuted.
 
+
+(* ------------------------- histories on one shared cache: the memo-cell machine *)
+
+(* Before(&A), Before(&B), Once, Delete("func"), Flush() and time.Sleep in any
+   order on ONE fresh cache, under a clock that stands still except for the
+   sleeps (calls take no time compared with the expiry) and with every sleep
+   outlasting the default expiry: the transcription (deadlines, clock reads,
+   Set refusing to overwrite a live entry) behaves exactly as the clock-free
+   reference machine [srun] (whose counters are mathematical integers; the
+   code's are those clamped at the smallest value of the type) in which the
+   cache is a memo cell — per call the
+   same number of invocations and the same value, the same final counters, and
+   the final Get("func") finds what the cell holds.  In that machine the
+   invocation clauses are definitional (C18_memo_cell_reading). *)
+Theorem C18_shared_cache_refines_memo_cell : forall lo (clk fn : nat -> Z) def na nb ops,
+  lo < 0 -> is_int lo na -> is_int lo nb ->
+  (forall i, clk i = clk 0%nat) -> 0 <= clk 0%nat ->
+  (forall d, In (MSleep d) ops -> def < d) ->
+  let '(outs, mf) := mrun lo clk fn ops (mkM na nb 0 (world0 def)) in
+  let '(souts, sf) := srun def fn ops (mkS na nb None 0) in
+  outs = souts /\ m_a mf = Z.max lo (s_a sf) /\ m_b mf = Z.max lo (s_b sf) /\ w_k (m_w mf) = s_k sf /\
+  fst (c_get (fun i => clk i + m_skew mf) (w_cache (m_w mf)) (w_tick (m_w mf))) = s_memo sf.
+Proof.
+  intros lo clk fn def na nb ops Hlo (A1 & A2) (B1 & B2) Hc H0 Hsl.
+  rewrite <- (clampS_id lo (mkM na nb 0 (world0 def)) A1 B1). rewrite mrun_sim by assumption.
+  assert (Hlong : Forall (long_sleep def) ops).
+  { apply Forall_forall. intros o Hin. destruct o; cbn; auto. }
+  pose proof (sim_run clk fn def Hc H0 ops _ _ (sim_init clk def na nb) Hlong) as (R1 & R2).
+  destruct (mrun_z clk fn ops (mkM na nb 0 (world0 def))) as [outs mf].
+  destruct (srun def fn ops (mkS na nb None 0)) as [souts sf].
+  cbn [fst snd] in R1, R2. destruct R2 as (Ha & Hb & Hk & _ & _ & _ & Hm).
+  cbn [clampS m_a m_b m_skew m_w fst snd]. rewrite (c_get_const clk Hc). cbn [fst snd].
+  rewrite Ha, Hb. repeat split; auto.
+Qed.
+Print Assumptions C18_shared_cache_refines_memo_cell.
+
+(* the reference machine, read clause by clause: Before runs the callback iff
+   its own counter is >= 1 (whatever the cell holds); a spent Before returns the
+   cell (zero value if empty); Once runs iff the cell is empty, and then the
+   cell holds its result; otherwise it returns the cell untouched *)
+Theorem C18_memo_cell_reading : forall def fn s,
+  fst (fst (sstep def fn s MBeforeA)) = (if 1 <=? s_a s then 1%nat else 0%nat) /\
+  (s_a s <= 0 -> sstep def fn s MBeforeA = ((0%nat, val_of (s_memo s)), mkS (s_a s - 1) (s_b s) (s_memo s) (s_k s))) /\
+  (s_memo s = None ->
+     sstep def fn s MOnce = ((1%nat, fn (s_k s)), mkS (s_a s) (s_b s) (Some (fn (s_k s))) (S (s_k s)))) /\
+  (forall v, s_memo s = Some v -> sstep def fn s MOnce = ((0%nat, v), s)).
+Proof.
+  intros def fn s. destruct s as [a b memo k]. cbn [sstep s_a s_b s_memo s_k]. unfold s_before, s_once.
+  split; [|split; [|split]].
+  - destruct (1 <? a) eqn:A; [|destruct (a =? 1) eqn:B]; cbn;
+      destruct (1 <=? a) eqn:C; try reflexivity;
+      repeat match goal with
+      | H : (_ <? _) = true |- _ => apply Z.ltb_lt in H
+      | H : (_ <? _) = false |- _ => apply Z.ltb_ge in H
+      | H : (_ <=? _) = true |- _ => apply Z.leb_le in H
+      | H : (_ <=? _) = false |- _ => apply Z.leb_gt in H
+      | H : (_ =? _) = true |- _ => apply Z.eqb_eq in H
+      | H : (_ =? _) = false |- _ => apply Z.eqb_neq in H
+      end; lia.
+  - intros Ha. replace (1 <? a) with false by (symmetry; apply Z.ltb_ge; lia).
+    replace (a =? 1) with false by (symmetry; apply Z.eqb_neq; lia). reflexivity.
+  - intros ->. reflexivity.
+  - intros v ->. reflexivity.
+Qed.
+Print Assumptions C18_memo_cell_reading.
+
+(* non-vacuity: a history with every kind of operation, default expiry 5 and a
+   sleep of 6: the hypotheses hold and both machines produce this trace (the
+   second Once is served, the one after the sleep runs again, B = 1 finds the
+   cell occupied and returns the foreign value without storing its own) *)
+Example C18_shared_cache_example :
+  let ops := [MOnce; MBeforeA; MOnce; MSleep 6; MOnce; MBeforeB; MDelete; MBeforeA; MFlush; MBeforeA] in
+  let fn := fun k : nat => 10 + Z.of_nat k in
+  (forall d, In (MSleep d) ops -> 5 < d) /\
+  (is_int min64 2 /\ is_int min64 1) /\
+  fst (mrun min64 (fun _ => 0) fn ops (mkM 2 1 0 (world0 5))) = fst (srun 5 fn ops (mkS 2 1 None 0)) /\
+  fst (srun 5 fn ops (mkS 2 1 None 0)) =
+    [(1%nat, 10); (1%nat, 11); (0%nat, 10); (0%nat, 0); (1%nat, 12); (1%nat, 12); (0%nat, 0);
+     (1%nat, 14); (0%nat, 0); (0%nat, 0)].
+Proof.
+  cbv zeta. split; [|split; [vm_compute; repeat split; congruence|split; vm_compute; reflexivity]].
+  intros d [H|[H|[H|[H|[H|[H|[H|[H|[H|[H|[]]]]]]]]]]]; inversion H; lia.
+Qed.
+
 (* ------------------------------------------------------------------ Retry *)
 
 (* the loop terminates within its fuel and equals the closed form *)
@@ -196,6 +493,26 @@ Proof.
   split; [apply retry_spec_success|apply retry_spec_exhausted].
 Qed.
 Print Assumptions C18_retry_clauses.
+
+(* however large n is (math.MaxInt included): the first success decides, and an
+   evaluation of the loop with ANY amount of fuel that finishes, finishes with
+   the closed form (the wire evaluates Retry(MaxInt) with fuel for the pattern
+   it was given, not with 2^63 units) *)
+Theorem C18_retry_first_success_any_n : forall n ok b f,
+  first_ok ok b = Some f -> Z.of_nat f < n -> retry n ok = Some (mkRetry (Z.of_nat f) 0 (S f)).
+Proof.
+  intros n ok b f H Hf. rewrite retry_eq_spec. f_equal. exact (retry_first_success true n ok b f H Hf).
+Qed.
+Print Assumptions C18_retry_first_success_any_n.
+
+Theorem C18_retry_any_fuel : forall fuel n ok r,
+  retry_with fuel n ok = Some r -> retry n ok = Some r.
+Proof. intros fuel n ok r H. rewrite retry_eq_spec. f_equal. symmetry. exact (retry_with_sound fuel n ok r H). Qed.
+Print Assumptions C18_retry_any_fuel.
+
+Example C18_retry_maxint_example :
+  retry_with 5 max64 (fun k => Nat.eqb k 2) = Some (mkRetry 2 0 3).
+Proof. vm_compute. reflexivity. Qed.
 
 (* "until it succeeds or n calls have failed": every invocation but the last
    failed; either the last one succeeded (nil error, attempts = invocations - 1)
@@ -250,6 +567,43 @@ Proof.
     pose proof (gap_one t_inv t_arm t_fire d H1 H2 H3 j). cbn [Nat.add]. lia.
 Qed.
 Print Assumptions C18_retry_delay_gap.
+
+
+(* per gap, whatever the attempts cost: attempt j returns at t_ret j (any time
+   after it started — it may itself take longer than d); the pause of THIS gap
+   is a wait of its own (the j-th entry of d_waits), armed only after attempt j
+   returned and complete before attempt j+1 starts.  Hence between the RETURN of
+   an attempt and the START of the next at least d elapses, and consecutive
+   starts are at least (duration of the earlier attempt) + d apart. *)
+Theorem C18_retry_delay_gap_after_return :
+  forall t_start (t_inv t_ret t_arm t_fire : nat -> Z) t_end d n ok,
+  (forall j, t_inv j <= t_ret j) ->          (* an attempt returns after it started *)
+  (forall j, t_ret j <= t_arm j) ->          (* time.After is called after the attempt returned *)
+  (forall j, t_arm j + d <= t_fire j) ->     (* TIMER LAW *)
+  (forall j, t_fire j <= t_inv (S j)) ->     (* the next invocation happens after the receive *)
+  exists r, retry_delay t_start t_inv t_arm t_fire t_end n ok = Some r /\
+  forall j, (S j < r_calls (d_res r))%nat ->
+    nth j (d_waits r) (0, 0) = (t_arm j, t_fire j) /\
+    t_ret j + d <= t_inv (S j) /\
+    nth j (d_elapsed r) 0 + (t_ret j - t_inv j) + d <= nth (S j) (d_elapsed r) 0.
+Proof. exact retry_delay_gap_after_return. Qed.
+Print Assumptions C18_retry_delay_gap_after_return.
+
+(* non-vacuity with d = 10 and attempts of duration 0, d/2 and 2.5 d *)
+Example C18_retry_delay_slow_attempts_nonvacuous :
+  let dur := fun j : nat => match j with 0%nat => 0 | 1%nat => 5 | _ => 25 end in
+  let t_inv := fun j : nat => 40 * Z.of_nat j in
+  let t_ret := fun j : nat => 40 * Z.of_nat j + dur j in
+  let t_arm := fun j : nat => 40 * Z.of_nat j + dur j + 1 in
+  let t_fire := fun j : nat => 40 * Z.of_nat j + dur j + 12 in
+  (forall j, t_inv j <= t_ret j) /\ (forall j, t_ret j <= t_arm j) /\
+  (forall j, t_arm j + 10 <= t_fire j) /\ (forall j, t_fire j <= t_inv (S j)) /\
+  option_map d_waits (retry_delay 0 t_inv t_arm t_fire 200 4 (fun _ => false))
+  = Some [(1, 12); (46, 57); (106, 117); (146, 157)].
+Proof.
+  cbv zeta. repeat split; try (vm_compute; reflexivity);
+    intros j; destruct j as [|[|j]]; cbn [Nat.eqb]; lia.
+Qed.
 
 (* non-vacuity of the timer hypotheses, and a run under them *)
 Example C18_retry_delay_gap_nonvacuous :
